@@ -215,6 +215,11 @@ func (g *gen) neutral() []ins {
 }
 
 func (g *gen) limitArg() uint64 {
+	if g.r.Chance(6) {
+		// int64 boundary of the limit operand: from 2^63 on it must be rejected (BadValue), never
+		// reinterpreted as a negative limit that credits the parent
+		return []uint64{1 << 63, 1<<64 - 1, 1<<64 - 50000, 1<<63 + 7, 1<<63 - 1}[g.r.Intn(5)]
+	}
 	switch g.r.Intn(4) {
 	case 0:
 		return 0
